@@ -79,8 +79,9 @@ class Attr:
 class CT:
     """named complexType; content: Seq | None; attrs; base: QName of the extended type (complexContent/extension)"""
 
-    def __init__(self, name, content=None, attrs=(), base=None, ext_attrs=(), doc=None):
+    def __init__(self, name, content=None, attrs=(), base=None, ext_attrs=(), doc=None, ns=None):
         self.name, self.content, self.attrs, self.base, self.ext_attrs, self.doc = name, content, list(attrs), base, list(ext_attrs), doc
+        self.ns = ns or {}
 
 
 class ST:
@@ -190,7 +191,7 @@ class Schema:
         if isinstance(c, CT):
             a = {}
             put(a, 'name', c.name)
-            return E(x + 'complexType', a, self._ct_content(c))
+            return E(x + 'complexType', a, self._ct_content(c), ns={k: attr(v) for k, v in c.ns.items()})
         if isinstance(c, ST):
             a = {}
             put(a, 'name', c.name)
